@@ -165,6 +165,7 @@ pub fn build_proof(r: &mut Rng, pool: &Pool, tab: &mut SigTab, s: &SSet, domain:
     ProofSpec { label, bytes }
 }
 
+#[derive(Clone)]
 pub struct Msg { pub chain: Vec<u8>, pub id: Vec<u8>, pub src: Vec<u8>, pub contract: Vec<u8>, pub ph: Vec<u8> }
 impl Msg {
     pub fn encode(&self) -> Vec<u8> {
